@@ -308,6 +308,14 @@ func allProps(c *Contract) []string {
 	for _, p := range c.Sweep {
 		set[p] = true
 	}
+	for _, p := range c.Covers {
+		set[p] = true
+	}
+	for _, r := range c.Requires {
+		if r.CallSiteOnly {
+			continue
+		}
+	}
 	for _, l := range c.Loops {
 		for _, i := range l.Invariants {
 			for _, p := range i.Props {
